@@ -18,7 +18,7 @@ import (
 func init() {
 	register(&Check{
 		ID:   "C15",
-		Rule: "case = (nesting shape, reader type, known-prefix length): messages for the recursive zoo type Node are synthesised byte by byte with exactly d nesting levels (levels = nested struct/list/set/map values) for every d in {1..70, 96..1120 step 32, bound-2..bound+2, 2048, 10^4, 10^5, 10^6} (thorough: every d<=2048); shapes: struct->struct, ->list->struct, ->set->struct, ->map value (also with a sibling entry after the nesting one), ->map key, list/map of by-value structs, wide lists (2/40/1022/1500 elements, the last one nesting on), seeded mixtures; readers: Node (known position), NodeOld (skipped, no holder), NodeU (skipped into a holder), unknown field id, a known id sent with another wire type, ReqNode (recursion through a required list with a required field after it), LongName (Node under a 60-character type name: per-level error context grows with it). Oracle: d<=48 accepted; d>decoder bound (exported by the hook, 1023) rejected with ProtocolException DEPTH_LIMIT; in between only those two outcomes and one threshold per case (monotone); child stack capped at 256 MiB. distinct = distinct (shape, reader, prefix); non-trivial = both an accepted and a rejected depth were observed",
+		Rule: "case = (nesting shape, reader type, known-prefix length): messages for the recursive zoo type Node are synthesised byte by byte with exactly d nesting levels (levels = nested struct/list/set/map values) for every d in {1..70, 96..1120 step 32, bound-2..bound+2, 2048, 10^4, 10^5, 10^6} (thorough: every d<=2048); shapes: struct->struct, ->list->struct, ->set->struct, ->map value (also with a sibling entry after the nesting one), ->map key, list/map of by-value structs, wide lists (2/40/1022/1500 elements, the last one nesting on), seeded mixtures; readers: Node (known position), NodeOld (skipped, no holder), NodeU (skipped into a holder), unknown field id, a known id sent with another wire type, ReqNode (recursion through a required list with a required field after it), LongName (Node under a 60-character type name: per-level error context grows with it), NodeD (Node with a default initialiser: created structs go through the InitDefault path). Oracle: d<=48 accepted; d>decoder bound (exported by the hook, 1023) rejected with ProtocolException DEPTH_LIMIT; in between only those two outcomes and one threshold per case (monotone); child stack capped at 256 MiB. distinct = distinct (shape, reader, prefix); non-trivial = both an accepted and a rejected depth were observed",
 		Plan: func(tier string) []BuildPlan {
 			if tier == "thorough" {
 				return []BuildPlan{{"plain", c15Cases()}, {"checkptr", c15Cases()}, {"asan", c15Cases() / 3}}
@@ -31,7 +31,7 @@ func init() {
 }
 
 var c15Steps = []string{"next", "kids", "kset", "byval", "bykey", "vals", "mval", "kidsW", "valsW", "byval2", "mval2"}
-var c15Readers = []string{"Node", "NodeOld", "NodeU", "unknown-id", "ReqNode", "retyped-id", "LongName"}
+var c15Readers = []string{"Node", "NodeOld", "NodeU", "unknown-id", "ReqNode", "retyped-id", "LongName", "NodeD"}
 
 // c15Width is the element count of the wide list steps ("kidsW", "valsW"): the
 // first elements are empty structs, the last one carries the rest of the nest.
@@ -260,6 +260,8 @@ func runC15(c *harness.Ctx, idx int) {
 			dst = &zoo.Node{}
 		case "LongName":
 			dst = &zoo.NodeWithAnExceptionallyLongGoTypeNameForItsErrorContexts{}
+		case "NodeD":
+			dst = &zoo.NodeD{}
 		case "NodeOld":
 			dst = &zoo.NodeOld{}
 		case "NodeU":
